@@ -1,5 +1,5 @@
 """C02 - every successful LR parse yields a valid derivation tree of the consumed input."""
-from . import mir, rt, c05
+from . import mir, rt, c05, idiom
 from .mir import Sim, TermBuilder, callee, fmt
 
 LEVEL = "other"
@@ -30,7 +30,8 @@ def r1_reduce_cells(F, res):
                     if flt and flt[0][2][1][0] == "closure":
                         g = F.fn(flt[0][2][1][1])
                         cs = {callee(t) for _, t in g.calls()} if g else set()
-                        if any(c.endswith("LRItem::is_reducing") for c in cs) and len([c for c in cs if "rustemo_compiler" in c]) == 1:
+                        if any(c.endswith("LRItem::is_reducing") for c in cs) and len([c for c in cs if "rustemo_compiler" in c]) == 1 \
+                                and idiom.predicate_is(F, g, "LRItem::is_reducing"):
                             res.ok(rid, "reducing-filter", f.loc(), "filter(|x| x.is_reducing())")
                         else:
                             res.violation(rid, "reducing-filter", "reducing items are selected by %s" % sorted(mir.short(c) for c in cs), f.loc())
